@@ -561,7 +561,12 @@ def main():
         else:
             # the print covers the parameter list (names and order), the return type and the body,
             # so it does not change when lalrpop merely renumbers the actions
-            sig = ", ".join(names) + " -> " + ret + " : " + norm
+            # parameter names are replaced by their positions (`_p0`, `_p1`, …) in the signature and in
+            # the body: renaming a capture is harmless, swapping two captures is not — and changes the print
+            body_n = norm
+            for k, nm in sorted(enumerate(names), key=lambda kn: -len(kn[1])):
+                body_n = re.sub(r"(?<![A-Za-z0-9_])" + re.escape(nm) + r"(?![A-Za-z0-9_])", f"_p{k}", body_n)
+            sig = str(len(names)) + " -> " + ret + " : " + body_n
             h = int(hashlib.sha256(sig.encode()).hexdigest()[:15], 16)
             defs.append(f"  .user {len(params)} {h}")
             prints.append((n, len(params), h))
